@@ -44,39 +44,36 @@ WITNESSES = {
 
 # departures that live in the text (no PyF-level witness): replayed on rope and judged by the oracle only
 TEXTUAL = {
-    "tuple-target-as-keyword": (
-        "def g(y=0):\n    return y\nf = g\nx, y = 1, 2\nprint(y, g(y=3))\n",
-        "the last name of an unparenthesised tuple target (`x, y = ...`) looks like a keyword argument (preceded by a "
-        "comma, followed by `=`); the word before the start of the line is taken for the callee: after a line ending "
-        "in `g` the target y is reported as the parameter y of g and is missing from the occurrences of the variable y"),
-    "genexp-first-token": (
-        "x = [1]\nk = sum(x + 1 for x in [3])\nprint(x)\n",
-        "a generator expression that is the sole argument of a call has no parentheses of its own, its region starts "
-        "at its first token and Scope.in_region is strict: a name that is the first token of the element is looked "
-        "up in the enclosing scope (`sum(x + 1 for x in ...)`: the first x is grouped with the global x)"),
-    "string-prefix-as-occurrence": (
+    'instance-attribute-assigned-in-for-or-with': (
+        'class K:\n    def run(self, ys):\n        for y in ys:\n            self.x = y\n        return self.x\n',
+        'an instance attribute that is only assigned inside a for / with statement (or a nested function) of a method is unknown to the class (_ClassInitVisitor skips these statements): self.x has no PyName, a query on it finds nothing, and in a subclass it is reported with the attribute of the same name inherited from the base'),
+    'global-in-class-body-as-attribute': (
+        'y = 0\nclass K:\n    global y\n    def m(self):\n        self.y = 1\n        return self.y\nprint(y)\n',
+        "a `global y` statement in a class body makes y an attribute of the class for rope (the module's PyName is stored in the class names): self.y is reported as an occurrence of the global y"),
+}
+
+# repaired in /repo (commit): the replay lives in corpus/C02/ and a returning defect is a VIOLATION
+FIXED = {
+    'tuple-target-as-keyword': (
+        'def g(y=0):\n    return y\nf = g\nx, y = 1, 2\nprint(y, g(y=3))\n',
+        'the last name of an unparenthesised tuple target (`x, y = ...`) looks like a keyword argument (preceded by a comma, followed by `=`); the word before the start of the line is taken for the callee: after a line ending in `g` the target y is reported as the parameter y of g and is missing from the occurrences of the variable y',
+        '9405717'),
+    'genexp-first-token': (
+        'x = [1]\nk = sum(x + 1 for x in [3])\nprint(x)\n',
+        'a generator expression that is the sole argument of a call has no parentheses of its own, its region starts at its first token and Scope.in_region is strict: a name that is the first token of the element is looked up in the enclosing scope (`sum(x + 1 for x in ...)`: the first x is grouped with the global x)',
+        '61b2b10'),
+    'string-prefix-as-occurrence': (
         "def f(y):\n    return y\ns = f'{f(1)} f'\nb = 2\nt = b'b' + bytes(b)\n",
-        "the prefix of a string literal is reported as an occurrence of a variable or function spelled like it "
-        "(f'..', b'..', r'..', u'..'): the occurrence alternative of the search pattern is tried before the string "
-        "alternatives (a rename of f would rewrite f'...' into g'...')"),
-    "instance-attribute-assigned-in-for-or-with": (
-        "class K:\n    def run(self, ys):\n        for y in ys:\n            self.x = y\n        return self.x\n",
-        "an instance attribute that is only assigned inside a for / with statement (or a nested function) of a method is "
-        "unknown to the class (_ClassInitVisitor skips these statements): self.x has no PyName, a query on it finds "
-        "nothing, and in a subclass it is reported with the attribute of the same name inherited from the base"),
-    "indented-import-module-as-variable": (
-        "def f(c):\n    import c as y\n    return c, y\n",
-        "in an indented `import c as y` the module name is not recognised as part of an import statement "
-        "(Worder.is_import_statement compares the statement start with column 0) and is evaluated as a variable: it "
-        "is reported as an occurrence of a visible variable c (a rename of the variable would rewrite the import)"),
-    "global-in-class-body-as-attribute": (
-        "y = 0\nclass K:\n    global y\n    def m(self):\n        self.y = 1\n        return self.y\nprint(y)\n",
-        "a `global y` statement in a class body makes y an attribute of the class for rope (the module's PyName is "
-        "stored in the class names): self.y is reported as an occurrence of the global y"),
-    "from-import-at-eof": (
-        "def c():\n    pass\nfrom ext import c",
-        "find_occurrences raises IndexError for a name that is the last word of a file ending, without a newline, in "
-        "`from m import name` (Worder.is_from_aliased looks one character past the end of the text)"),
+        "the prefix of a string literal is reported as an occurrence of a variable or function spelled like it (f'..', b'..', r'..', u'..'): the occurrence alternative of the search pattern is tried before the string alternatives (a rename of f would rewrite f'...' into g'...')",
+        '417bae9'),
+    'indented-import-module-as-variable': (
+        'def f(c):\n    import c as y\n    return c, y\n',
+        'in an indented `import c as y` the module name is not recognised as part of an import statement (Worder.is_import_statement compares the statement start with column 0) and is evaluated as a variable: it is reported as an occurrence of a visible variable c (a rename of the variable would rewrite the import)',
+        '49ab4fe'),
+    'from-import-at-eof': (
+        'def c():\n    pass\nfrom ext import c',
+        'find_occurrences raises IndexError for a name that is the last word of a file ending, without a newline, in `from m import name` (Worder.is_from_aliased looks one character past the end of the text)',
+        'b5db6ac'),
 }
 
 EXAMPLE = (
@@ -133,22 +130,48 @@ HISTORY = {
 }
 
 
+PROJECT = {
+    "imported-name-same-line-homonym": (
+        {"kind": "project", "focus": "imported-name-same-line-homonym",
+         "files": {"lib.py": "def g(): pass\nc = g()\nb = max(b for b in c)\nprint(b)\n",
+                   "mod_under_test.py": "from lib import b\nprint(b)\n"}},
+        "same_pyname compares the definition location of an imported name by (module, line): `from lib import b` is "
+        "reported with the module-level b of lib AND with the variable b of a generator expression written on the same "
+        "line (`b = max(b for b in c)`, both of unknown type); asked from lib's module-level b the generator's b is not "
+        "reported, so the answer also depends on the occurrence used to ask"),
+}
+
+
 def write_findings():
+    for fid, (obj, title) in PROJECT.items():
+        with open(os.path.join(VERIF, "findings", "C02-%s.json" % fid), "w") as f:
+            json.dump(dict(obj, property="C02", title=title), f, indent=1)
     for fid, (obj, title) in HISTORY.items():
         with open(os.path.join(VERIF, "findings", "C02-%s.json" % fid), "w") as f:
             json.dump(dict(obj, property="C02", title=title), f, indent=1)
     for fid, (src, title) in list(WITNESSES.items()) + list(TEXTUAL.items()):
         with open(os.path.join(VERIF, "findings", "C02-%s.json" % fid), "w") as f:
             json.dump({"property": "C02", "kind": "module", "focus": fid, "src": src, "title": title}, f, indent=1)
+    os.makedirs(os.path.join(VERIF, "corpus", "C02"), exist_ok=True)
+    for fid, (src, title, commit) in FIXED.items():
+        # replayed first on every run; it fails again when the oracle has any verdict rope cannot account for
+        with open(os.path.join(VERIF, "corpus", "C02", "%s.json" % fid), "w") as f:
+            json.dump({"property": "C02", "kind": "module", "focus": "unexplained", "was": fid, "fixed_by": commit,
+                       "src": src, "title": title}, f, indent=1)
+        stale = os.path.join(VERIF, "findings", "C02-%s.json" % fid)
+        if os.path.exists(stale):
+            os.remove(stale)
 
 
 def write_findings_index():
     entries = []
-    for fid, (src, title) in list(WITNESSES.items()) + list(TEXTUAL.items()) + list(HISTORY.items()):
-        entries.append({"property": "C02", "id": "C02-" + fid, "title": title.split(":")[0] if False else title,
+    for fid, (src, title) in list(WITNESSES.items()) + list(TEXTUAL.items()) + list(HISTORY.items()) + list(PROJECT.items()):
+        entries.append({"property": "C02", "id": "C02-" + fid, "title": title,
                         "signature": fid, "replay": "findings/C02-%s.json" % fid})
+    fixed = ["fixed: property=C02 %s %s; replay corpus/C02/%s.json" % (commit, title, fid)
+             for fid, (src, title, commit) in FIXED.items()]
     with open(os.path.join(VERIF, "findings.d", "C02.json"), "w") as f:
-        json.dump({"open": entries, "fixed": []}, f, indent=1)
+        json.dump({"open": entries, "fixed": fixed}, f, indent=1)
 
 
 if __name__ == "__main__":
